@@ -1,4 +1,9 @@
+#[cfg(not(feature = "ypo_flute_verif"))]
 use std::sync::{Arc, Mutex};
+#[cfg(feature = "ypo_flute_verif")]
+use crate::verif::sync::Mutex;
+#[cfg(feature = "ypo_flute_verif")]
+use std::sync::Arc;
 
 use rand::RngExt;
 
@@ -48,6 +53,12 @@ impl ToiAllocatorInternal {
                 rng.random()
             }
         };
+        #[cfg(feature = "ypo_flute_verif")]
+        if toi_initial_value.is_none() {
+            if let Some(seed) = crate::verif::toi_seed() {
+                toi = seed;
+            }
+        }
 
         toi = Self::to_max_length(toi, toi_max_length);
         if toi == lct::TOI_FDT {
@@ -78,6 +89,8 @@ impl ToiAllocatorInternal {
         self.toi_reserved.insert(ret);
 
         loop {
+            #[cfg(feature = "ypo_flute_verif")]
+            crate::verif::tick("toiallocator::allocate");
             self.toi = Self::to_max_length(self.toi + 1, self.toi_max_length);
             if self.toi == lct::TOI_FDT {
                 self.toi = 1;
